@@ -322,6 +322,8 @@ def check(case):
 
   old_before = C.canon(old, history=False)
   new_before = C.canon(new)
+  # an opaque leaf object (a dataclass instance) is what its own == says: Fiddle cannot look inside
+  new_want = C.canon(new, opaque_by_eq=True)
   try:
     diff = diffing.build_diff(old, new)
   except Exception as e:  # pylint: disable=broad-except
@@ -344,9 +346,9 @@ def check(case):
     return out
   if res is not None:
     out.add('apply_diff-returned-value', 'mismatch', '', feat, repr(res)[:100])
-  got = C.canon(work)
-  if got != new_before:
-    sh = 'values' if C.canon(work, sharing=False) != C.canon(new, sharing=False) else 'sharing-only'
+  got = C.canon(work, opaque_by_eq=True)
+  if got != new_want:
+    sh = 'values' if C.canon(work, sharing=False, opaque_by_eq=True) != C.canon(new, sharing=False, opaque_by_eq=True) else 'sharing-only'
     out.add('round-trip-differs', sh, '', feat + (':' + swap if swap else ''),
             f'applied {applied}\nold={old!r}\nnew={new!r}\ngot={work!r}\ndiff={diff}'[:3000])
     return out
